@@ -18,6 +18,7 @@ import (
 	"github.com/cloudflare/circl/ecc/fourq"
 	"github.com/cloudflare/circl/ecc/goldilocks"
 	"github.com/cloudflare/circl/group"
+	"github.com/cloudflare/circl/hpke"
 	"github.com/cloudflare/circl/kem/schemes"
 	"github.com/cloudflare/circl/oprf"
 	"github.com/cloudflare/circl/sign"
@@ -93,7 +94,7 @@ func main() {
 		// an encoding followed by further bytes is not an encoding (decoders that take a slice; the raw bls12381 SetBytes functions are
 		// covered by their own 96- / 192-byte classes)
 		if map[string]bool{"sec1-p256": true, "sec1-p384": true, "sec1-p521": true, "ristretto255": true, "bls-pk": true, "oprf-pk": true, "mlkem-ek": true,
-			"eddsa-scheme-key": true}[f.fmtName] {
+			"eddsa-scheme-key": true, "xkem-key": true}[f.fmtName] {
 			for i, v := range valid {
 				if i >= 6 {
 					break
@@ -652,6 +653,39 @@ func edFamilies(rng *rand.Rand) []family {
 
 func otherFamilies(rng *rand.Rand) []family {
 	var fs []family
+	// the HPKE DHKEM(X25519 / X448) key and encapsulated-key decoders: every string of Npk bytes is a key (RFC 7748 accepts non-canonical
+	// u-coordinates), so the only rule is the LENGTH - Npk = Nenc is fixed by RFC 9180 7.1
+	for _, id := range []hpke.KEM{hpke.KEM_X25519_HKDF_SHA256, hpke.KEM_X448_HKDF_SHA512} {
+		sch := id.Scheme()
+		cl := map[string][][]byte{}
+		for i := 0; i < 4; i++ {
+			pk, _ := sch.DeriveKeyPair(vlib.Bytes(rng, sch.SeedSize()))
+			b, _ := pk.MarshalBinary()
+			cl["valid"] = append(cl["valid"], b)
+		}
+		fs = append(fs, family{"xkem-key", sch.Name() + " UnmarshalBinaryPublicKey", func(b []byte) (bool, bool, bool) {
+			pk, err := sch.UnmarshalBinaryPublicKey(b)
+			if err != nil {
+				return false, false, false
+			}
+			re, _ := pk.MarshalBinary()
+			return true, bytes.Equal(re, b), true
+		}, cl})
+		clk := map[string][][]byte{}
+		for i := 0; i < 4; i++ {
+			_, sk := sch.DeriveKeyPair(vlib.Bytes(rng, sch.SeedSize()))
+			b, _ := sk.MarshalBinary()
+			clk["valid"] = append(clk["valid"], b)
+		}
+		fs = append(fs, family{"xkem-key", sch.Name() + " UnmarshalBinaryPrivateKey", func(b []byte) (bool, bool, bool) {
+			sk, err := sch.UnmarshalBinaryPrivateKey(b)
+			if err != nil {
+				return false, false, false
+			}
+			re, _ := sk.MarshalBinary()
+			return true, bytes.Equal(re, b), true
+		}, clk})
+	}
 	{
 		g := group.Ristretto255
 		p := new(big.Int).Sub(new(big.Int).Lsh(big1, 255), big.NewInt(19))
